@@ -223,6 +223,9 @@ def _name(rel, origin_labels, absolute):
     import dns.name
 
     labs = _labels(rel)
+    if absolute == 2:
+        # absolute, with the origin part in the other letter case (names are case-insensitive)
+        return dns.name.Name(labs + [l.swapcase() for l in origin_labels])
     return dns.name.Name(labs + origin_labels if absolute else labs)
 
 
@@ -234,7 +237,8 @@ def _owner_text(rel, origin_labels, absolute):
     # pool labels are plain letters, digits and '*': no escaping needed
     labs = [l.decode("ascii") for l in _labels(rel)]
     if absolute:
-        return ".".join(labs + [l.decode("ascii") for l in origin_labels[:-1]]) + "."
+        ol = [l.swapcase() if absolute == 2 else l for l in origin_labels[:-1]]
+        return ".".join(labs + [l.decode("ascii") for l in ol]) + "."
     return ".".join(labs) if labs else "@"
 
 
@@ -393,7 +397,9 @@ def _simulate(ctx, state, ops):
 def _apply_ops(ctx, txn, ops):
     for op in ops:
         kind = op[0]
-        name = _name(POOL[op[1]], ctx.origin_labels, bool(op[-1]))
+        if op[-1] == 2 and op[1] == 0 and not ctx.rel and op[2] != "SOA":
+            ctx.classes.add("apex-written-in-other-case:absolute-zone")
+        name = _name(POOL[op[1]], ctx.origin_labels, op[-1])
         if kind == "add":
             if op[2] == "SOA":
                 # SOA owner must be spelled as the effective origin (DESIGN section 4 item 5)
@@ -432,7 +438,7 @@ def _load(ctx, case, ops, via):
             lines.append("$ORIGIN " + _owner_text((), ctx.origin_labels, True))
         for op in ops:
             lines.append(
-                f"{_owner_text(POOL[op[1]], ctx.origin_labels, bool(op[-1]))} {TTL} IN {op[2]} "
+                f"{_owner_text(POOL[op[1]], ctx.origin_labels, op[-1])} {TTL} IN {op[2]} "
                 f"{RDTEXT[op[2]][op[3]]}"
             )
         return dns.zone.from_text(
@@ -838,14 +844,14 @@ def _name_idx(focus):
 
 
 def _record(focus):
-    return st.tuples(_name_idx(focus), st.sampled_from(_TYPES), st.integers(0, 1), st.integers(0, 1)).map(list)
+    return st.tuples(_name_idx(focus), st.sampled_from(_TYPES), st.integers(0, 1), st.sampled_from([0, 1, 1, 2])).map(list)
 
 
 def _op(focus):
     ni = _name_idx(focus)
     ty = st.sampled_from(_TYPES)
     rd = st.integers(0, 1)
-    sp = st.integers(0, 1)
+    sp = st.sampled_from([0, 1, 1, 2])
     return st.one_of(
         st.tuples(st.just("add"), ni, ty, rd, sp),
         st.tuples(st.just("add"), ni, ty, rd, sp),
@@ -944,7 +950,7 @@ def load_cases(draw, maxrec):
     case = draw(_common())
     focus = draw(_focus())
     recs = draw(st.lists(_record(focus), min_size=3, max_size=maxrec))
-    recs += [_SOA, [0, "NS", 0, draw(st.integers(0, 1))]]
+    recs += [_SOA, [0, "NS", 0, draw(st.sampled_from([0, 1, 2]))]]
     wrecs, wqs = draw(_wide(case))
     recs += wrecs
     n = len(recs)
@@ -965,7 +971,7 @@ def history_cases(draw, maxrec, maxtxn, maxops):
     case = draw(_common())
     focus = draw(_focus())
     recs = draw(st.lists(_record(focus), min_size=1, max_size=maxrec))
-    recs += [_SOA, [0, "NS", 0, draw(st.integers(0, 1))]]
+    recs += [_SOA, [0, "NS", 0, draw(st.sampled_from([0, 1, 2]))]]
     wrecs, wqs = draw(_wide(case))
     recs = list(draw(st.permutations(recs + wrecs)))
     case["records"] = recs
@@ -996,6 +1002,7 @@ def parts(tier):
                 "flag:NONE": 100,
                 "nested-cut": 20,
                 "multi-level-delegation-index": 100,
+                "apex-written-in-other-case:absolute-zone": 40,
                 "bounds:right=None": 100,
                 "bounds:is_equal": 100,
                 "bounds:not_equal": 100,
@@ -1021,6 +1028,7 @@ def parts(tier):
                 "flag:NONE": 200,
                 "nested-cut": 30,
                 "multi-level-delegation-index": 100,
+                "apex-written-in-other-case:absolute-zone": 40,
                 "cut-removed-glue-left": 50,
                 "non-ns-change-at-cut": 20,
                 "cut-created-above-existing-names": 50,
